@@ -312,3 +312,171 @@ Definition z_verify1 (tb : ztable) (root : Z) (k : list bool) (ps : pset1 Z) : r
 Definition z_verifyW (tb : ztable) (root : Z) (k : list bool) (ps : pset1 Z) : result Z :=
   verifyW_top Z Z.eqb (zlook tb) z_of_path z_add_len 0%Z root k ps.
 Definition z_erase_set (ps : pset2 Z) : pset1 Z := erase_set Z ps.
+
+(* ====================================================================================== *)
+(* Range proofs of core/trie2 (proof.go: VerifyRangeProof, proofToPath, unsetInternal, handleEdgeFork,
+   handleBinaryFork, unset, hasRightElement) and the part of trie.go they run on (insert over a
+   partially resolved trie, hashing with nil children).
+   The Go code links the nodes OF THE PROOF SET to each other and then cuts children off them in
+   place; a node fetched twice from the set is the same object. The model therefore keeps the set as
+   a heap: objects are identified by the key they are stored under, children are references. *)
+Section Range2.
+Variable F : Type.
+Variable feq : F -> F -> bool.
+Variable fzero : F -> bool.
+Variable ped : F -> F -> F.
+Variable of_path : list bool -> F.
+Variable add_len : F -> nat -> F.
+Variable f0 : F.
+
+Inductive href :=
+| HNil                      (* nil *)
+| HRef (h : F)              (* pointer to the set's object stored under key h *)
+| HHash (x : F)             (* *trienode.HashNode *)
+| HVal (v : F).             (* *trienode.ValueNode *)
+Inductive hnode :=
+| HBin (l r : href)
+| HEdge (p : list bool) (c : href).
+Definition heap := list (F * hnode).
+
+Definition href_of (c : pchild F) : href := match c with CH x => HHash x | CV v => HVal v end.
+Definition hnode_of (n : pnode2 F) : hnode :=
+  match n with QBin l r => HBin (href_of l) (href_of r) | QEdge p c => HEdge p (href_of c) end.
+Definition heap_of (ps : pset2 F) : heap := map (fun hn => (fst hn, hnode_of (snd hn))) ps.
+
+(* partially resolved trie as trie.go sees it *)
+Inductive rnode :=
+| RVal (v : F)
+| RHash (x : F)
+| REdge (p : list bool) (c : rnode)
+| RBin (l r : option rnode).
+
+Fixpoint rhash (n : rnode) : F :=
+  match n with
+  | RVal v => v
+  | RHash x => x
+  | REdge p c => add_len (ped (rhash c) (of_path p)) (length p)
+  | RBin l r => ped (match l with Some a => rhash a | None => f0 end)      (* nil child: NilValueNode *)
+                    (match r with Some b => rhash b | None => f0 end)
+  end.
+Definition rroot (t : option rnode) : F := match t with Some n => rhash n | None => f0 end.
+
+(* heap -> tree (a cycle in the heap exhausts the fuel) *)
+Fixpoint unfold (fuel : nat) (hp : heap) (r : href) : option (option rnode) :=   (* None = fuel *)
+  match r with
+  | HNil => Some None
+  | HHash x => Some (Some (RHash x))
+  | HVal v => Some (Some (RVal v))
+  | HRef h =>
+      match fuel with
+      | O => None
+      | S fuel' =>
+          match pget F feq hp h with
+          | None => None
+          | Some (HEdge p c) =>
+              match unfold fuel' hp c with
+              | Some (Some c') => Some (Some (REdge p c'))
+              | Some None => Some (Some (REdge p (RVal f0)))   (* edge with nil child: not produced *)
+              | None => None
+              end
+          | Some (HBin l r) =>
+              match unfold fuel' hp l, unfold fuel' hp r with
+              | Some l', Some r' => Some (Some (RBin l' r'))
+              | _, _ => None
+              end
+          end
+      end
+  end.
+
+(* ---------- trie.go insert on a partially resolved trie ---------- *)
+Inductive ires := IOk (n : rnode) | IErr | IPanic.
+Definition rwrap (p : list bool) (c : rnode) : rnode := match p with [] => c | _ => REdge p c end.
+Definition set_child (b : bool) (c : rnode) (lr : option rnode * option rnode) : option rnode * option rnode :=
+  if b then (fst lr, Some c) else (Some c, snd lr).
+
+Definition rleaf_at (k : list bool) (v : F) : rnode := rwrap k (RVal v).   (* insert(nil, k, value) *)
+
+Fixpoint rinsert_n (n : rnode) (k : list bool) (v : F) : ires :=
+  match k with
+  | [] => IOk (RVal v)                                    (* key.Len() == 0: the value, whatever n is *)
+  | kb :: k' =>
+      match n with
+      | REdge p c =>
+          let '(m, pr, kr) := split p k in
+          match pr with
+          | [] => match rinsert_n c kr v with IOk c' => IOk (REdge p c') | e => e end
+          | ob :: pr' =>
+              let a := rwrap pr' c in
+              let '(nb, b) := match kr with nb :: kr' => (nb, rwrap kr' (RVal v)) | [] => (false, RVal v) end in
+              let lr := set_child nb b (set_child ob a (None, None)) in
+              IOk (rwrap m (RBin (fst lr) (snd lr)))
+          end
+      | RBin l r =>
+          match (match (if kb then r else l) with
+                 | Some ch => rinsert_n ch k' v
+                 | None => IOk (rleaf_at k' v)
+                 end) with
+          | IOk c' => IOk (if kb then RBin l (Some c') else RBin (Some c') r)
+          | e => e
+          end
+      | RHash _ => IErr                                   (* resolveNode on the empty node reader *)
+      | RVal _ => IPanic                                  (* "unknown node type" *)
+      end
+  end.
+
+Definition rinsert (n : option rnode) (k : list bool) (v : F) : ires :=
+  match n with
+  | Some n' => rinsert_n n' k v
+  | None => IOk (rleaf_at k v)
+  end.
+
+Inductive tres := TOk (t : option rnode) | TErr | TPanic.
+Fixpoint rinsert_all (t : option rnode) (kvs : list (list bool * F)) : tres :=
+  match kvs with
+  | [] => TOk t
+  | (k, v) :: r =>
+      match rinsert t k v with
+      | IOk n => rinsert_all (Some n) r
+      | IErr => TErr
+      | IPanic => TPanic
+      end
+  end.
+
+(* ---------- BitArray.Cmp: by length, then by value ---------- *)
+Fixpoint bits_cmp_eqlen (p q : list bool) : comparison :=
+  match p, q with
+  | a :: p', b :: q' => if Bool.eqb a b then bits_cmp_eqlen p' q' else if b then Lt else Gt
+  | _, _ => Eq
+  end.
+Definition bcmp (p q : list bool) : comparison :=
+  match Nat.compare (length p) (length q) with
+  | Eq => bits_cmp_eqlen p q
+  | c => c
+  end.
+Definition is_lt c := match c with Lt => true | _ => false end.
+Definition is_gt c := match c with Gt => true | _ => false end.
+Definition is_eq c := match c with Eq => true | _ => false end.
+Definition zeros (n : nat) : list bool := repeat false n.
+Definition bit_at (k : list bool) (i : nat) : bool := nth i k false.   (* Bit(n): 0 when out of range *)
+Definition subset (k : list bool) (a b : nat) : list bool := firstn (b - a) (skipn a k).
+
+(* ---------- hasRightElement ---------- *)
+Inductive hres := HasR (b : bool) | HPanic.
+Fixpoint has_right_n (n : rnode) (k : list bool) : hres :=
+  match n with
+  | RVal _ => HasR false
+  | RHash _ => HPanic
+  | REdge p c =>
+      if pmatch p k then has_right_n c (skipn (length p) k)
+      else let ep := if length p <? length k then p ++ zeros (length k - length p) else p in
+           HasR (is_gt (bcmp ep k))
+  | RBin l r =>
+      let b := bit_at k 0 in
+      if negb b && (match r with Some _ => true | None => false end) then HasR true
+      else match (if b then r else l) with
+           | Some ch => has_right_n ch (tl k)
+           | None => HasR false
+           end
+  end.
+Definition has_right (n : option rnode) (k : list bool) : hres :=
+  match n with Some n' => has_right_n n' k | None => HasR false end.
